@@ -69,7 +69,11 @@ void run_C09(vh::Ctx& c) {
     if ((G & 2) && !sizes_equal && form != F_CONSTRUCT) { c.count("cells.guarantee_would_be_false"); return; }
     // ---- build the situation
     Vec a0 = rand_vec(r, d), b0 = bin ? rand_vec(r, d) : Vec(), v0 = dv ? rand_vec(r, dv) : Vec(), h0;
-    double sc = r.coin(0.2) ? 2.0 : r.normal();
+    if (bin && r.coin(0.1)) { b0 = a0; c.count("operands.equal_values_distinct_objects"); }
+    if (r.coin(0.05)) { a0.assign(a0.size(), 0.0); c.count("operands.a_zero"); }
+    // the scalar / time: besides generic values the ones an implementation is tempted to special-case
+    double sc; { int w = r.pick(20); sc = w < 3 ? 2.0 : w < 6 ? 1.0 : w < 8 ? -1.0 : w < 10 ? 0.0 : r.normal(); }
+    c.count(sc == 1.0 ? "scalar.one" : sc == -1.0 ? "scalar.minus_one" : sc == 0.0 ? "scalar.zero" : "scalar.generic");
     Obj V, A, B; SU_vector H(d);
     std::unique_ptr<UserBuf> table;
     if (base_shape(shape) == EVOLVE || base_shape(shape) == FASTEVOLVE) { h0.assign((size_t)d * d, 0.0); for (unsigned l = 1; l < d; l++) h0[d * l + l] = r.normal(); H = SU_vector(h0); table.reset(new UserBuf((size_t)d * (d - 1))); H.PrepareEvolve(table->p, sc); }
